@@ -410,3 +410,46 @@ func VerifC16Forms() {
 	}
 	verifrt.Reached("end")
 }
+
+// VerifC16Corpus: the metamorphic clauses of the property on the shared
+// program corpus (no oracle needed): an uncaught error reports the same
+// lines with the optimizer on and off, every position lies inside the file,
+// and k prepended blank lines move every reported line down by exactly k.
+func VerifC16Corpus() {
+	verifrt.Assert(VerifCorpusLen() == verifrt.Param("len"), "job-table-covers-the-corpus")
+	src, args := VerifCorpus(verifrt.Param("prog"))
+	k := 1 + verifrt.Choice("k", 2)*2
+	lines := func(text string, noopt bool) ([]int, bool, bool) {
+		bc, err := Compile([]byte(text), CompilerOptions{NoOptimize: noopt})
+		verifrt.AssertMsg(err == nil, "compiles", text)
+		if err != nil {
+			return nil, false, false
+		}
+		o := verifRunBC(bc, nil, args...)
+		if o.err == nil {
+			return nil, false, true
+		}
+		got, ok := verifC16Lines(o.err)
+		verifrt.Assert(ok, "error-is-a-runtime-error")
+		if re, isRE := o.err.(*RuntimeError); isRE {
+			for _, p := range re.StackTrace() {
+				verifrt.AssertMsg(p.Offset >= 0 && p.Offset <= len(text) && p.Line >= 1, "position-inside-file", text)
+			}
+		}
+		return got, true, ok
+	}
+	base, failed, ok := lines(src, true)
+	if ok {
+		opt, failedOpt, ok2 := lines(src, false)
+		verifrt.AssertMsg(ok2 && failed == failedOpt && (!failed || verifSameLines(base, opt)), "same-lines-with-optimizer", src)
+		shifted, failedK, ok3 := lines(strings.Repeat("\n", k)+src, verifrt.Bool("noopt"))
+		same := ok3 && failed == failedK && len(shifted) == len(base)
+		if same {
+			for i := range base {
+				same = same && shifted[i] == base[i]+k
+			}
+		}
+		verifrt.AssertMsg(same, "blank-lines-shift-every-line", src)
+	}
+	verifrt.Reached("end")
+}
